@@ -72,7 +72,14 @@ Inductive body :=
 | BGovSubmit (deposit : N) (basic_ok content_ok : bool)
     (* governance/transactions.go:20-215: basic_ok = ValidateBasic and enablement
        (before gas), content_ok = the content checks after the balance check *)
-| BOther (ok : bool).                      (* any transaction that does not touch the ledger beyond fee and nonce *)
+| BOther (ok : bool)                       (* any transaction that does not touch the ledger beyond fee and nonce *)
+| BWithdrawHooked (from amt : N) (hook_ok : bool)
+    (* staking.Withdraw from an account with a withdraw hook (a vault): the hook replaces the
+       allowance logic; hook_ok = the hook's verdict (vault policy, decided outside the ledger) *)
+| BVaultExec (caller : N) (inner : body).
+    (* vault.AuthorizeAction that executes an ExecuteMessage action: the inner method runs as a
+       subcall with the vault as caller (abci/subcall.go), in its own transaction context; the
+       result class of the operation is the one recorded in ActionExecutedEvent.Result *)
 
 (* state/gas.go:32-140 AuthenticateAndPayFees in DeliverTx mode *)
 Definition auth (p : params) (s : state) (signer nonce_ fee : N) : rc * state :=
@@ -217,6 +224,27 @@ Definition withdraw_op (p : params) (s : state) (to from amt : N) (gas_ok : bool
           end
     end.
 
+(* transactions.go:701-849 withdraw when the source account has a withdraw hook: same checks
+   in the same order up to and including "caller = source -> ErrInvalidArgument", then the hook
+   instead of the allowance, then the move *)
+Definition withdraw_hooked (p : params) (s : state) (to from amt : N) (hook_ok gas_ok : bool) : rc * state :=
+  if negb gas_ok then (RFail EOutOfGas, s)
+  else if amt <? p_min_transfer p then (RFail EUnderMinTransfer, s)
+  else if p_disable_transfers p || (p_max_allow p =? 0) then (RFail EForbidden, s)
+  else if reserved p to || reserved p from then (RFail EForbidden, s)
+  else if to =? from then (RFail EInvalidArg, s)
+  else if negb hook_ok then (RFail EForbidden, s)
+  else
+    let f := acct s from in
+    let t := acct s to in
+    match qmove (general t) (general f) amt with
+    | None => (RFail EInsufficientStaking, s)
+    | Some (tg, fg) =>
+        if fg <? p_min_transact p then (RFail EBalanceTooLow, s)
+        else if tg <? p_min_transact p then (RFail EBalanceTooLow, s)
+        else (ROk, sub_general from amt (add_general to amt s))
+    end.
+
 (* governance/transactions.go:20-215 submitProposal, the ledger part;
    state.go:1072-1108 TransferToGovernanceDeposits *)
 Definition gov_submit (p : params) (s : state) (from deposit : N) (basic_ok content_ok gas_ok : bool) : rc * state :=
@@ -226,7 +254,7 @@ Definition gov_submit (p : params) (s : state) (from deposit : N) (basic_ok cont
   else if negb content_ok then (RFail EOther, s)
   else (ROk, with_gov (sub_general from deposit s) (gov_deposits s + deposit)).
 
-Definition exec_body (p : params) (s : state) (signer : N) (b : body) (gas_ok : bool) : rc * state :=
+Definition exec_leaf (p : params) (s : state) (signer : N) (b : body) (gas_ok : bool) : rc * state :=
   match b with
   | BTransfer to amt => transfer p s signer to amt gas_ok
   | BBurn amt => burn p s signer amt gas_ok
@@ -236,6 +264,17 @@ Definition exec_body (p : params) (s : state) (signer : N) (b : body) (gas_ok : 
   | BWithdraw f amt => withdraw_op p s signer f amt gas_ok
   | BGovSubmit dep b1 b2 => gov_submit p s signer dep b1 b2 gas_ok
   | BOther ok => if negb gas_ok then (RFail EOutOfGas, s) else if ok then (ROk, s) else (RFail EOther, s)
+  | BWithdrawHooked f amt ok => withdraw_hooked p s signer f amt ok gas_ok
+  | BVaultExec _ _ => (RFail EOther, s)    (* nested vault execution is not modelled *)
+  end.
+
+(* a vault-executed message runs the handler with the vault as caller; a failing subcall is
+   rolled back as a whole (the handlers write nothing when they fail anyway) *)
+Definition exec_body (p : params) (s : state) (signer : N) (b : body) (gas_ok : bool) : rc * state :=
+  match b with
+  | BVaultExec caller inner =>
+      if negb gas_ok then (RFail EOutOfGas, s) else exec_leaf p s caller inner true
+  | _ => exec_leaf p s signer b gas_ok
   end.
 
 (* abci/transaction.go:58-126 processTx: authenticate (fee, nonce), charge
@@ -513,11 +552,21 @@ Fixpoint run_rc (p : params) (s : state) (ops : list op) : list rc * state :=
 
 (* amount explicitly burned by an operation, given its result: the Burn
    method and a Transfer to the burn address (the amounts in BurnEvent) *)
-Definition burned (p : params) (o : op) (r : rc) : N :=
-  match o, r with
-  | OTx _ _ _ _ _ (BBurn amt), ROk => amt
-  | OTx _ _ _ _ _ (BTransfer to amt), ROk => if to =? p_burn_addr p then amt else 0
+Definition burned_body (p : params) (b : body) (r : rc) : N :=
+  match b, r with
+  | BBurn amt, ROk => amt
+  | BTransfer to amt, ROk => if to =? p_burn_addr p then amt else 0
   | _, _ => 0
+  end.
+Definition burned_b (p : params) (b : body) (r : rc) : N :=
+  match b with
+  | BVaultExec _ inner => burned_body p inner r
+  | _ => burned_body p b r
+  end.
+Definition burned (p : params) (o : op) (r : rc) : N :=
+  match o with
+  | OTx _ _ _ _ _ b => burned_b p b r
+  | _ => 0
   end.
 
 Fixpoint burned_run (p : params) (s : state) (ops : list op) : N :=
